@@ -2,7 +2,7 @@
 # randomx_reciprocal.inc under x86sem, and the no-op rule for zero / powers of two
 import z3, time
 from lemmas.common import *
-from engine.irsym import Module, Interp, Ptr, is_c, bv, Mem
+from engine.irsym import Module, Interp, Ptr, is_c, bv, Mem, explore
 from engine.intmode import IntMode
 from engine import build, x86sem
 
@@ -16,29 +16,39 @@ def spec_claims(res, d, b):
 
 def run_R1(ctx, case):
     b = case['bits']; q = Q(60); mod = Module(ctx['ll']['reciprocal'])
-    d = z3.BitVec('d', 32); it = Interp(mod)
-    pc = [z3.UGT(d, 1 << (b - 1)), z3.ULT(z3.ZeroExt(1, d), z3.BitVecVal(1 << b, 33))]      # 2^(b-1) < d < 2^b : every non-power-of-two with bit length b
-    def ctlz(s, args):
-        a = args[0]; w = a.size(); val = w - b
-        full = z3.BitVecVal(w, w)
-        for i in range(w): full = z3.If(z3.Extract(i, i, a) == 1, z3.BitVecVal(w - 1 - i, w), full)
-        st, _ = q.check(pc, full != val, 'clz(divisor) == %d for every %d-bit divisor' % (val, b), abstract=False)
-        if st != 'unsat': raise Exception('clz not determined by the bit length')
-        return val
-    it.intr_hooks['llvm.ctlz'] = ctlz
-    it.fork['pc'] += pc
-    r = it.call(mod.find('randomx_reciprocal'), [d])
-    D = z3.Int('d_int'); im = IntMode([D > 2 ** (b - 1), D < 2 ** b], timeout_s=60)
-    res = im.tr(bv(r, 64)); q.n += im.n; q.unsat += im.unsat; q.solver_s += im.solver_s
-    for name, claim in spec_claims(res, D, b):
-        sol = z3.Solver(); sol.set('timeout', 60000); sol.add(*im.pre); sol.add(*im.defs); sol.add(z3.Not(claim))
-        t = time.time(); rr = sol.check(); q.solver_s += time.time() - t; q.n += 1
-        if rr == z3.unsat: q.unsat += 1; q.proved.append(name)
-        elif rr == z3.sat: q.sat += 1; q.failed.append(('randomx_reciprocal, %d-bit divisors: %s' % (b, name), model_dict(sol.model())))
-        else: q.unknown += 1; q.inconclusive.append(name)
-    wraps = [l for l in im.log if l.startswith('kept')]
-    if wraps: q.failed.append(('intermediate value can wrap for %d-bit divisors: %s' % (b, wraps), {})); q.sat += 1
-    return result('R1', 'bit length %d' % b, q, paths=1, detail='integer-mode translation: %s' % '; '.join(im.log)[:300])
+    d = z3.BitVec('d', 32); npaths = [0]; logs = []
+    base = [z3.UGT(d, 1 << (b - 1)), z3.ULT(z3.ZeroExt(1, d), z3.BitVecVal(1 << b, 33))]      # 2^(b-1) < d < 2^b : every non-power-of-two with bit length b
+    def one(fk):
+        it = Interp(mod); it.fork = fk; fk['pc'] += base; it.concretize_shifts = True
+        def ctlz(s, args):
+            a = args[0]; w = a.size(); full = z3.BitVecVal(w, w)
+            for i in range(w): full = z3.If(z3.Extract(i, i, a) == 1, z3.BitVecVal(w - 1 - i, w), full)
+            return s.concretize(full, list(range(0, w + 1)))
+        it.intr_hooks['llvm.ctlz'] = ctlz
+        r = it.call(mod.find('randomx_reciprocal'), [d]); npaths[0] += 1; pc = fk['pc']
+        # the divisors of this path form an interval [lo, hi] (checked), which is the integer-side precondition
+        o = z3.Optimize(); o.add(*pc); h = o.minimize(z3.ZeroExt(1, d)); o.check(); lo = int(str(o.lower(h)))
+        o = z3.Optimize(); o.add(*pc); h = o.maximize(z3.ZeroExt(1, d)); o.check(); hi = int(str(o.upper(h)))
+        st, _ = q.check(base + [z3.UGE(d, lo), z3.ULE(d, hi)], z3.Not(z3.And(*pc)), 'path condition == divisor interval [%d, %d]' % (lo, hi), abstract=False)
+        if st != 'unsat': return
+        D = z3.Int('d_int'); im = IntMode([D >= lo, D <= hi], timeout_s=60)
+        res = im.tr(bv(r, 64)); q.n += im.n; q.unsat += im.unsat; q.solver_s += im.solver_s; logs.append('[%d,%d]: %s' % (lo, hi, '; '.join(im.log)))
+        for name, claim in spec_claims(res, D, b):
+            sol = z3.Solver(); sol.set('timeout', 60000); sol.add(*im.pre); sol.add(*im.defs); sol.add(z3.Not(claim))
+            t = time.time(); rr = sol.check(); q.solver_s += time.time() - t; q.n += 1
+            if rr == z3.unsat: q.unsat += 1; q.proved.append(name)
+            elif rr == z3.sat: q.sat += 1; q.failed.append(('randomx_reciprocal, %d-bit divisors in [%d, %d]: %s' % (b, lo, hi, name), model_dict(sol.model())))
+            else: q.unknown += 1; q.inconclusive.append(name)
+        wraps = [l for l in im.log if l.startswith('kept')]
+        if wraps: q.failed.append(('intermediate value can wrap for divisors in [%d, %d]: %s' % (lo, hi, wraps), {})); q.sat += 1
+    res_, nq = explore(one, limit=64); q.n += nq
+    # the paths cover the whole bit-length class
+    sol = z3.Solver(); sol.add(*base)
+    for taken, pc, r_ in res_: sol.add(z3.Not(z3.And(*pc)))
+    q.n += 1
+    if sol.check() == z3.unsat: q.unsat += 1
+    else: q.sat += 1; q.failed.append(('paths do not cover all %d-bit divisors' % b, {}))
+    return result('R1', 'bit length %d' % b, q, paths=npaths[0], detail='%d path(s); %s' % (npaths[0], ' | '.join(logs)[:300]))
 
 def run_R2(ctx, case):
     """the assembly routine (bsr/shl/div): same value as the specification, div cannot fault"""
@@ -89,3 +99,29 @@ LEMMAS = {
     'R2': dict(jobs=lambda ctx: [dict(bits=b) for b in range(2, 33)], run=run_R2, units=[], asm=True, functions=['randomx_reciprocal_fast (src/asm/randomx_reciprocal.inc, assembled)'],
                doc='the assembly routine returns the same floor(2^(63+b)/d) and its div cannot fault', bound='as R1', symbolic='divisor, all other registers', stubs=['x86sem']),
 }
+
+# ---- R3: zero / power-of-two immediates make IMUL_RCP a no-op that is not a register modification (interpreter decode and JIT)
+def run_R3(ctx, case):
+    from spec import params as P
+    lo, hi = P.RANGE['IMUL_RCP']
+    if case['engine'] == 'interp':
+        from lemmas import isa
+        r = isa.run_I1(ctx, dict(dst=case['dst'], src=case['src'], opcodes=(lo, hi - 1)))
+    else:
+        from lemmas import jit
+        r = jit.run_J1(ctx, dict(opcode=case['opcode'], dst=case['dst'], src=case['src']))
+    r['lemma'] = 'R3'; return r
+
+def jobs_R3(ctx):
+    from spec import params as P
+    lo, hi = P.RANGE['IMUL_RCP']; J = []
+    for d in range(8):
+        J.append(dict(engine='interp', dst=d, src=(d + 3) % 8))
+        for op in ((lo, hi - 1) if ctx['tier'] == 'quick' else range(lo, hi)): J.append(dict(engine='jit', opcode=op, dst=d, src=(d + 3) % 8))
+    return J
+
+LEMMAS['R3'] = dict(jobs=jobs_R3, run=run_R3, units=['vmcore', 'jit'], functions=['BytecodeMachine::compileInstruction (IMUL_RCP arm)', 'executeInstruction', 'JitCompilerX86::h_IMUL_RCP', 'isZeroOrPowerOf2'],
+    doc='IMUL_RCP with imm32 zero or a power of two (unsigned, including 2^31) is a no-op in interpreter and JIT and leaves both last-writer tables untouched; otherwise it multiplies by the reciprocal and records the write (I1/J1 restricted to the IMUL_RCP opcodes)',
+    bound='all imm32, all 8 destinations, all register states', symbolic='imm32, registers, last-writer tables', stubs=['reciprocal value := uninterpreted (R1/R2)'])
+from lemmas import isa as _isa, jit as _jit
+UNITS['vmcore'] = _isa.UNITS['vmcore']; UNITS['jit'] = _jit.UNITS['jit']
